@@ -20,6 +20,16 @@ class Crash(Exception):
     pass
 
 
+class CallableAction:
+    """A teardown action that is neither a function nor a partial: an object with __call__."""
+
+    def __init__(self, fn):
+        self.fn = fn
+
+    def __call__(self):
+        return self.fn()
+
+
 def make_task(d, sid, sv, stop):
     async def cleanup():
         with anyio.CancelScope(shield=True):
@@ -117,6 +127,9 @@ async def run_case(case):
 
                     def ta(inner_ta=inner_ta):
                         return inner_ta()
+                elif callable(ta) and sid % 3 == 1:
+                    # "(function, or any callable ...)": an instance with __call__ (sync or async as above)
+                    ta = CallableAction(ta)
                 if deferred is not None:
                     x, deferred = deferred, None
                     window = anyio.Event()
